@@ -6,6 +6,8 @@ ALL = ["C%02d" % i for i in range(1, 21)]
 BASE_OFF = "cd /repo && env -u ASCMHL_VERIF /venv/bin/python -m pytest -ra -q -p no:cacheprovider --timeout=900 --continue-on-collection-errors"
 T = "in-process CliRunner on tmpfs as accelerator, every alarm re-run in one fresh subprocess per command; CPython, hashlib, xxhash, lxml/libxml2 trusted; bounds and alphabets as listed in the evidence file"
 CHECKS = {
+ "C03": ("E1", "model_checking", "bounded-exhaustive exploration: sealed base states x all single/pair mutations x {verify, diff, create} on the real code",
+         "Eleven kinds of sealed histories are built with the real tool; every single mutation of every entry and every pair (triples on the flat base in thorough) is applied and verify, diff and create are run on each mutated state; the expected exit-code class and the paths that must be named are derived from the tree difference alone.", "4 C03"),
  "C08": ("E1", "model_checking", "explicit-state BFS of the real file-system state graph (real create per transition, relational oracle + audit-event order)",
          "Every command sequence up to the bound over creates at each of the (prefix-named, chained) directories, top-level create / create -n and create -sf of each file is executed, which yields every subset of nested roots in every creation order; each create is judged for routing, child root hash, references, commit order and the set of histories that get a generation.", "4 C08"),
  "C07": ("E1", "model_checking", "bounded-exhaustive exploration of trees x format sets x edits on the real code, reference recursion as oracle",
